@@ -11,6 +11,7 @@ import (
 
 	curve "github.com/consensys/gnark-crypto/ecc/bn254"
 	"github.com/consensys/gnark-crypto/ecc/bn254/fr"
+	"github.com/consensys/gnark-crypto/ecc/bn254/fr/fft"
 	"github.com/consensys/gnark-crypto/ecc/bn254/fr/permutation"
 	"github.com/consensys/gnark-crypto/ecc/bn254/fr/plookup"
 	"github.com/consensys/gnark-crypto/ecc/bn254/kzg"
@@ -150,10 +151,269 @@ func (c c17C_bn254) permMutate(a kvs, x c17Perm_bn254, o c17Perm_bn254) (kb, ks,
 	return
 }
 
+// ---- dense polynomials (coefficient slices, low degree first) for the CONSISTENT forgeries
+
+func (c17C_bn254) frGen() *big.Int {
+	var b big.Int
+	g := fft.GeneratorFullMultiplicativeGroup()
+	g.BigInt(&b)
+	return &b
+}
+
+func (c17C_bn254) pAdd(a, b []fr.Element) []fr.Element {
+	if len(a) < len(b) {
+		a, b = b, a
+	}
+	r := append([]fr.Element{}, a...)
+	for i := range b {
+		r[i].Add(&r[i], &b[i])
+	}
+	return r
+}
+func (c17C_bn254) pScale(a []fr.Element, k fr.Element) []fr.Element {
+	r := make([]fr.Element, len(a))
+	for i := range a {
+		r[i].Mul(&a[i], &k)
+	}
+	return r
+}
+func (c c17C_bn254) pSub(a, b []fr.Element) []fr.Element {
+	var m1 fr.Element
+	m1.SetOne()
+	m1.Neg(&m1)
+	return c.pAdd(a, c.pScale(b, m1))
+}
+func (c17C_bn254) pMul(a, b []fr.Element) []fr.Element {
+	if len(a) == 0 || len(b) == 0 {
+		return nil
+	}
+	r := make([]fr.Element, len(a)+len(b)-1)
+	var t fr.Element
+	for i := range a {
+		for j := range b {
+			t.Mul(&a[i], &b[j])
+			r[i+j].Add(&r[i+j], &t)
+		}
+	}
+	return r
+}
+
+// k − p
+func (c c17C_bn254) pConstMinus(k fr.Element, p []fr.Element) []fr.Element {
+	return c.pSub([]fr.Element{k}, p)
+}
+
+// p(gX)
+func (c17C_bn254) pShiftArg(p []fr.Element, g fr.Element) []fr.Element {
+	r := make([]fr.Element, len(p))
+	var gi fr.Element
+	gi.SetOne()
+	for i := range p {
+		r[i].Mul(&p[i], &gi)
+		gi.Mul(&gi, &g)
+	}
+	return r
+}
+
+// the polynomial of degree < len(xs) through (xs[i], ys[i]) (pairwise distinct xs), by Lagrange's formula
+func (c c17C_bn254) pInterp(xs, ys []fr.Element) []fr.Element {
+	n := len(xs)
+	res := make([]fr.Element, n)
+	for i := 0; i < n; i++ {
+		num := []fr.Element{{}}
+		num[0].SetOne()
+		var den, t fr.Element
+		den.SetOne()
+		for k := 0; k < n; k++ {
+			if k == i {
+				continue
+			}
+			var lin [2]fr.Element
+			lin[0].Neg(&xs[k])
+			lin[1].SetOne()
+			num = c.pMul(num, lin[:])
+			t.Sub(&xs[i], &xs[k])
+			den.Mul(&den, &t)
+		}
+		den.Inverse(&den)
+		den.Mul(&den, &ys[i])
+		res = c.pAdd(res, c.pScale(num, den))[:n]
+	}
+	return res
+}
+
+// a / (Xⁿ − 1); exact = the remainder is zero
+func (c17C_bn254) pDivXnMinus1(a []fr.Element, n int) (q []fr.Element, exact bool) {
+	a = append([]fr.Element{}, a...)
+	if len(a) > n {
+		q = make([]fr.Element, len(a)-n)
+	}
+	for i := len(a) - 1; i >= n; i-- {
+		q[i-n] = a[i]
+		a[i-n].Add(&a[i-n], &a[i])
+		a[i].SetZero()
+	}
+	for i := range a {
+		if !a[i].IsZero() {
+			return nil, false
+		}
+	}
+	if len(q) == 0 {
+		q = make([]fr.Element, 1)
+	}
+	return q, true
+}
+
+// the m-th roots of unity 1, w, w², … (w = gen^((r−1)/m)); ok = false when m ∤ r − 1
+func (c c17C_bn254) rootsOfUnity(m int) ([]fr.Element, bool) {
+	rm1 := fr.Modulus()
+	rm1.Sub(rm1, big.NewInt(1))
+	if m < 1 || new(big.Int).Mod(rm1, big.NewInt(int64(m))).Sign() != 0 {
+		return nil, false
+	}
+	var w fr.Element
+	w.Exp(fft.GeneratorFullMultiplicativeGroup(), new(big.Int).Div(rm1, big.NewInt(int64(m))))
+	h := make([]fr.Element, m)
+	h[0].SetOne()
+	for i := 1; i < m; i++ {
+		h[i].Mul(&h[i-1], &w)
+	}
+	return h, true
+}
+
+// CONSISTENT FORGERY under a prover-supplied parameter: a complete permutation proof for the vectors t1, t2 (values on the
+// m-th roots of unity H, natural order) in which size := m and g := fg are GIVEN (any field element, any m | r−1) and every
+// other component is derived honestly for that parameter: commitments of t1, t2, an accumulator z with z(1) = 1 and
+// z(g·x)(ε − t2(x)) = z(x)(ε − t1(x)) on H, the exact quotient q by X^m − 1, the verifier's own Fiat-Shamir challenges,
+// genuine KZG openings at η and g·η. Every check of Verify passes except, possibly, the check of the parameter itself.
+//   g ∈ H (order d | m): z is propagated along the orbit of 1 (closure is required: the two vectors agree as multisets on
+//     the orbit of 1) and is 0 on every other orbit (where t1, t2 are then arbitrary);
+//   g ∉ H, g ≠ 0: z is free on H (seeded by sd) and z(g·x) is solved for; g = 0: z(0) is solved from z(1) = 1.
+// ok = false: no such proof (closure fails / a zero denominator).
+func (c c17C_bn254) permForge(srs *kzg.SRS, t1v, t2v []fr.Element, m int, g, sd fr.Element) (proof permutation.Proof, ok bool) {
+	H, okH := c.rootsOfUnity(m)
+	if !okH || len(t1v) != m || len(t2v) != m {
+		return proof, false
+	}
+	x := c.permFields(&proof)
+	*x.size, *x.g = m, g
+	ct1, ct2 := c.pInterp(H, t1v), c.pInterp(H, t2v)
+	var err error
+	if *x.t1, err = kzg.Commit(ct1, srs.Pk); err != nil {
+		return proof, false
+	}
+	if *x.t2, err = kzg.Commit(ct2, srs.Pk); err != nil {
+		return proof, false
+	}
+	fs := fiatshamir.NewTranscript(sha256.New(), "epsilon", "omega", "eta")
+	eps := c.deriveG1(fs, "epsilon", x.t1, x.t2)
+	var one fr.Element
+	one.SetOne()
+	ratio := make([]fr.Element, m) // (ε − t1(x_i)) / (ε − t2(x_i))
+	for i := 0; i < m; i++ {
+		var n, d fr.Element
+		n.Sub(&eps, &t1v[i])
+		d.Sub(&eps, &t2v[i])
+		if d.IsZero() || n.IsZero() {
+			return proof, false
+		}
+		ratio[i].Div(&n, &d)
+	}
+	xs := append([]fr.Element{}, H...)
+	ys := make([]fr.Element, m)
+	ys[0] = one
+	k := -1
+	for i := range H {
+		if H[i].Equal(&g) {
+			k = i
+		}
+	}
+	switch {
+	case k >= 0: // g = w^k
+		for idx := 0; ; {
+			var v fr.Element
+			v.Mul(&ys[idx], &ratio[idx])
+			idx = (idx + k) % m
+			if idx == 0 {
+				if !v.Equal(&one) {
+					return proof, false
+				}
+				break
+			}
+			ys[idx] = v
+		}
+	case g.IsZero():
+		var z0 fr.Element
+		z0.Set(&ratio[0]) // z(0)(ε − t2(1)) = z(1)(ε − t1(1)), z(1) = 1
+		for i := 1; i < m; i++ {
+			ys[i].Div(&z0, &ratio[i])
+		}
+		xs, ys = append(xs, fr.Element{}), append(ys, z0)
+	default:
+		for i := 0; i < m; i++ {
+			if i > 0 {
+				ys[i].SetUint64(uint64(i))
+				ys[i].Add(&ys[i], &sd)
+				if ys[i].IsZero() {
+					ys[i] = one
+				}
+			}
+			var gx, v fr.Element
+			gx.Mul(&g, &H[i])
+			v.Mul(&ys[i], &ratio[i])
+			xs, ys = append(xs, gx), append(ys, v)
+		}
+	}
+	cz := c.pInterp(xs, ys)
+	if *x.z, err = kzg.Commit(cz, srs.Pk); err != nil {
+		return proof, false
+	}
+	om := c.deriveG1(fs, "omega", x.z)
+	l0 := make([]fr.Element, m)
+	for i := range l0 {
+		l0[i] = one
+	}
+	num := c.pSub(c.pMul(c.pShiftArg(cz, g), c.pConstMinus(eps, ct2)), c.pMul(cz, c.pConstMinus(eps, ct1)))
+	num = c.pAdd(num, c.pScale(c.pMul(l0, c.pSub(cz, []fr.Element{one})), om))
+	cq, exact := c.pDivXnMinus1(num, m)
+	if !exact {
+		return proof, false
+	}
+	if *x.q, err = kzg.Commit(cq, srs.Pk); err != nil {
+		return proof, false
+	}
+	eta := c.deriveG1(fs, "eta", x.q)
+	if *x.batched, err = kzg.BatchOpenSinglePoint([][]fr.Element{ct1, ct2, cz, cq}, []kzg.Digest{*x.t1, *x.t2, *x.z, *x.q}, eta, sha256.New(), srs.Pk); err != nil {
+		return proof, false
+	}
+	var geta fr.Element
+	geta.Mul(&eta, &g)
+	if *x.shifted, err = kzg.Open(cz, geta, srs.Pk); err != nil {
+		return proof, false
+	}
+	return proof, true
+}
+
 func (c c17C_bn254) permutation(a kvs, derive bool) string {
 	srs, err := kzg.NewSRS(uint64(a.int("n")), a.big("tau"))
 	if err != nil {
 		return "err"
+	}
+	if a["mut"] == "consist" {
+		proof, ok := c.permForge(srs, c.frs(bigL(a["t1"])), c.frs(bigL(a["t2"])), a.int("fm"), c.fr(a.big("fg")), c.fr(a.big("m")))
+		if !ok {
+			if derive {
+				return "proved=0"
+			}
+			return "err"
+		}
+		if derive {
+			x := c.permFields(&proof)
+			eps, om, eta := c.permChallenges(x)
+			return "proved=1 size=" + strconv.FormatInt(int64(*x.size), 16) + " g=" + c.frHex(*x.g) + " cv=" + c.showFrs(x.batched.ClaimedValues) +
+				" sv=" + c.frHex(x.shifted.ClaimedValue) + " eps=" + c.frHex(eps) + " om=" + c.frHex(om) + " eta=" + c.frHex(eta) + " kb=1 ks=1"
+		}
+		return c17Verdict(permutation.Verify(srs.Vk, proof))
 	}
 	proof, err := permutation.Prove(srs.Pk, c.frs(bigL(a["t1"])), c.frs(bigL(a["t2"])))
 	if err != nil {
@@ -628,6 +888,15 @@ func (c c17C_bn254) mpcsetup(a kvs) string {
 			}
 		case "n1Swap":
 			next1[0], next1[len(next1)-1] = next1[len(next1)-1], next1[0]
+		case "n1Cancel":
+			j := (i + 1) % len(next1)
+			next1[i].Add(&next1[i], &mG)
+			next1[j].Sub(&next1[j], &mG)
+		case "n2Cancel":
+			j := (i + 1) % len(next2)
+			m2 := c.g2(m)
+			next2[i].Add(&next2[i], &m2)
+			next2[j].Sub(&next2[j], &m2)
 		case "chal":
 			chal = []byte("another challenge")
 		case "dst":
